@@ -32,6 +32,14 @@ func TestC10(t *testing.T) { runProp(t, "C10") }
 func TestC14(t *testing.T) { runProp(t, "C14") }
 func TestC15(t *testing.T) { runProp(t, "C15") }
 func TestC16(t *testing.T) { runProp(t, "C16") }
+func TestC17(t *testing.T) {
+	st := NewRunStats("C17")
+	defer st.Write()
+	rapid.Check(t, func(rt *rapid.T) { RunCase(rt, Props["C17"], st, KnownSigs()) })
+	if !t.Failed() {
+		runCodecs(t, st)
+	}
+}
 func TestC19(t *testing.T) { runProp(t, "C19") }
 
 // TestReplay re-executes the case in VERIF_REPLAY without rapid.
